@@ -3,6 +3,7 @@
 
 Sub-checks
     ionic_list   ionic_strength(molalities, charges)       list / tuple / ndarray, plain or with units
+    ionic_batch  ionic_strength with array-valued molalities (one array of samples per ion): per-sample values, one warning
     ionic_dict   ionic_strength({formula: molality})       charges read from the formulas (or a substances mapping)
                  or from the substances a custom substance_factory yields for the keys
     dh_constants A and B: numeric path, units= path, constants-object path, own formula; exponent structure
@@ -34,7 +35,10 @@ RULE = ("Ion sets (2-11 ions, charges -4..+4, molalities n*2^k spanning 2^-40..6
         "summation can blur - is not judged).  Dict form: keys are G1 formulas with the charge overridden to the "
         "drawn value, or a pool of real ions.  substance_factory (with substances=None or the string form): default, "
         "Species.from_formula, a reader of IUPAC-style keys ('Ca2+', 'SO42-'), a table lookup of synthetic names - the "
-        "expected charge is the one the factory assigns.  Non-trivial (ionic_*): >= 3 ions, some |z| >= 2 and >= 6 decades "
+        "expected charge is the one the factory assigns.  ionic_batch: every molality an array of 2-5 samples built from one "
+        "exactly neutral integer base set (neutral samples: integer multiples and neutral-pair shifts; unbalanced: "
+        "perturbed / minor-ion / free), each sample classified as above, warning iff some sample is not neutral; "
+        "non-trivial = >= 3 ions and samples of different classes.  Non-trivial (ionic_*): >= 3 ions, some |z| >= 2 and >= 6 decades "
         "between the smallest and largest molality.  dh_constants: T 250-650 K, eps_r 5-100, rho 500-1500 kg/m3, "
         "b0 0.1-10 mol/kg as a quantity, or omitted, or the plain int 1 (every path), inputs in random compatible units; "
         "non-trivial = non-SI unit on some input.  log_gamma / "
@@ -640,6 +644,135 @@ def check_ionic_dict(case, ctx):
     _related(ctx, "not_linear", base, v, c)
 
 
+# -- batches: array-valued molalities -------------------------------------------------------------------------------
+# Every molality may be a numpy array over samples (a titration series evaluated in one call).  Accepted by the
+# unchanged tree in every input form: list / tuple of 1-D arrays, one 2-D ndarray (ions x samples), each plain or times a
+# molality unit, and the dict form (arrays as values; substances None, a string or a mapping).  The result is the array
+# of per-sample ionic strengths; the warning concerns the call: issued iff at least one sample is not neutral.
+# Construction: one exactly neutral base set in integers N_i * 2^kmin (major ions n*2^-j, j <= 20, plus the balancing
+# ion); a neutral sample is m * N_i (m 1..7), optionally shifted by a neutral pair (+q|z_j| on a cation i, +q|z_i| on an
+# anion j), times 2^(kmin+s): all integers stay below 2^40, so every float partial sum of b*z is exact and the net is
+# exactly 0.  Unbalanced samples: the dominant ion times 1+10^-x ('perturbed'), 10^-x of the largest molality added to
+# any charged ion ('minor', x 0..11.5), or log-uniform floats ('free').  Each sample is classified from its actual
+# floats with Fractions exactly as for the scalar calls (_classify).
+BATCH_FORMS = ["list", "tuple", "ndarray2d", "dict", "dict_str", "dict_mapping"]
+SAMPLE_KINDS = ["neutral", "perturbed", "neutral", "minor", "free"]
+
+
+@st.composite
+def ionic_batch_cases(draw):
+    n = draw(st.integers(1, 6))
+    ions = []
+    for _ in range(n):
+        nn, k = _dyadic(draw, TRACE_JMAX)
+        ions.append((draw(st.sampled_from(CHARGES)), nn, k))
+    kmin = min(k for _, _, k in ions)
+    zs = [z for z, _, _ in ions]
+    ints = [nn * 2 ** (k - kmin) for _, nn, k in ions]
+    N = sum(z * v for z, v in zip(zs, ints))
+    if N != 0:
+        d = draw(st.sampled_from([d for d in (1, 2, 4, 3) if abs(N) % d == 0]))
+        pos = draw(st.integers(0, len(zs)))
+        zs.insert(pos, -d if N > 0 else d)
+        ints.insert(pos, abs(N) // d)
+    elif len(zs) < 2:
+        zs.append(0)
+        ints.append(1)
+    cations = [i for i, z in enumerate(zs) if z > 0]
+    anions = [i for i, z in enumerate(zs) if z < 0]
+    samples, kinds = [], []
+    for _ in range(draw(st.integers(2, 5))):
+        kind = draw(st.sampled_from(SAMPLE_KINDS))
+        m = draw(st.integers(1, 7))
+        s = draw(st.integers(-20, 10))
+        vals = [m * v for v in ints]
+        if cations and anions and draw(st.booleans()):
+            i, j, q = draw(st.sampled_from(cations)), draw(st.sampled_from(anions)), draw(st.integers(1, 64))
+            vals[i] += q * abs(zs[j])
+            vals[j] += q * abs(zs[i])
+        bs = [math.ldexp(v, kmin + s) for v in vals]
+        if kind == "perturbed":
+            bs = [b for _, b in _perturb(draw, list(zip(zs, bs)))]
+        elif kind == "minor" and (cations or anions):
+            idx = draw(st.sampled_from(cations + anions))
+            bs[idx] = bs[idx] + max(bs) * 10.0 ** (-draw(st.floats(0, 11.5, allow_nan=False)))
+        elif kind == "free":
+            bs = [_free_molality(draw) for _ in bs]
+        samples.append(bs)
+        kinds.append(kind)
+    return {"zs": zs, "samples": samples, "kinds": kinds, "form": draw(st.sampled_from(BATCH_FORMS)),
+            "unit": draw(st.sampled_from(MOLALITY_UNITS))}
+
+
+def check_ionic_batch(case, ctx):
+    import numpy as np
+    from collections import OrderedDict
+    from chempy.electrolytes import ionic_strength
+    from chempy import Substance
+    zs = [int(z) for z in case["zs"]]
+    samples = [[float(b) for b in smp] for smp in case["samples"]]
+    n, K = len(zs), len(samples)
+    unit, form = case["unit"], case["form"]
+    with_units = unit != "none"
+    fact = MOLALITY_FACT[unit]
+    refs = [_reference([Fraction(b) * fact for b in smp], zs) for smp in samples]
+    classes = [_classify(net, absum) for _, net, absum in refs]
+    kinds = sorted(set("neutral" if c == "neutral" else "unbalanced" if c == "nonneutral" else "grey" for c in classes))
+    ctx.label("form=" + form, "unit=" + unit, "samples=%d" % K, "n=%d" % min(n, 10), "batch=" + "+".join(kinds))
+    ctx.nontrivial(len(kinds) >= 2 and n >= 3)
+    cols = [np.array([smp[i] for smp in samples], dtype=float) for i in range(n)]      # one array per ion
+    uo = _pq_unit(unit) if with_units else None
+    kw = {}
+    if form in ("list", "tuple"):
+        mol = [c * uo for c in cols] if with_units else cols
+        args = (tuple(mol) if form == "tuple" else mol, tuple(zs) if form == "tuple" else list(zs))
+    elif form == "ndarray2d":
+        arr = np.array(cols, dtype=float)
+        args = (arr * uo if with_units else arr, np.array(zs, dtype=int))
+    else:
+        # keys: an unused ion of the pool carrying the charge, else a synthetic name resolved through a substances mapping
+        keys, used, synthetic = [], set(), False
+        for i, z in enumerate(zs):
+            free = [k for k, zz in POOL if zz == z and k not in used]
+            if free and form != "dict_mapping":
+                keys.append(free[0])
+                used.add(free[0])
+            else:
+                keys.append("X%d" % i)
+                synthetic = True
+        args = (OrderedDict((k, c * uo if with_units else c) for k, c in zip(keys, cols)),)
+        if synthetic:
+            kw["substances"] = {k: (Substance(k, composition=({0: z} if z else {})) if k.startswith("X") else
+                                    _quiet(Substance.from_formula, k)) for k, z in zip(keys, zs)}
+        elif form == "dict_str":
+            kw["substances"] = " ".join(keys)
+    got, nwarn = _call(ionic_strength, *args, **kw)
+    # values: per sample, same tolerance and reasoning as judge_ionic
+    try:
+        mags = np.ravel(np.asarray(got.magnitude if hasattr(got, "magnitude") else got, dtype=float))
+        probe = si_of(got.units) if hasattr(got, "dimensionality") else (1.0, {})
+    except Exception:  # noqa
+        mags, probe = None, None
+    if mags is None or probe is None or len(mags) != K:
+        return ctx.fail("batch_result_shape", got=repr(got)[:200], samples=K)
+    factor, dims = probe
+    if not _same_dims(dims, DIM_MOLALITY if with_units else DIM_NONE):
+        return ctx.fail("ionic_strength_dimension:batch", got=repr(got)[:200], dims=dims)
+    for j, (I, _net, _absum) in enumerate(refs):
+        val = float(mags[j]) * factor
+        ok = (val == 0) if I == 0 else (math.isfinite(val) and abs(Fraction(val) - I) <= I * Fraction(1, 10 ** 12))
+        if not ok:
+            return ctx.fail("ionic_strength_value:batch", sample=j, got=val, expected=float(I), zs=zs)
+    # warning: about the whole call
+    if all(c == "neutral" for c in classes):
+        if nwarn:
+            ctx.fail("warning_on_neutral:batch", nwarn=nwarn, zs=zs)
+    elif any(c == "nonneutral" for c in classes):
+        if not nwarn:
+            rel = [float(abs(net) / absum) if absum else 0.0 for _, net, absum in refs]
+            ctx.fail("no_warning_on_nonneutral:batch", rel_net=rel, zs=zs, classes=classes)
+
+
 # ---------------------------------------------------------------------------
 # Debye-Hueckel A and B
 # ---------------------------------------------------------------------------
@@ -1037,6 +1170,10 @@ SUBCHECKS = [
              rule="mapping formula -> molality; substances None / string / dict of Substance / synthetic Substance objects; "
                   "substance_factory default / Species.from_formula / IUPAC-key reader / table lookup (None and string forms)",
              tolerances={"value_rel": 1e-12, "relation_rel": 4e-12, "nonneutral_min_rel_net": 1e-12}),
+    SubCheck("ionic_batch", check_ionic_batch, strategy=ionic_batch_cases(), quick=600, thorough=30000,
+             rule="array-valued molalities: 2-5 samples per call (neutral / perturbed / minor-ion / free), list / tuple / 2-D "
+                  "ndarray / dict forms, plain or with units; per-sample value, warning iff some sample is not neutral",
+             tolerances={"value_rel": 1e-12, "nonneutral_min_rel_net": 1e-12}),
     SubCheck("dh_constants", check_dh, strategy=dh_cases(), quick=500, thorough=24000,
              rule="A and B at two points on the numeric, units= and constants-object paths; b0 omitted, the plain int 1 "
                   "(positional / keyword) or a molality quantity",
